@@ -148,6 +148,20 @@ SetStringS(id, s) == LET x == GetSeq(doc, id) IN
                      Step(Op("set_string", id, 0-1, 0, <<>>, s, NoMs),
                           IF StringCmd(x) THEN Update(id, [x EXCEPT !.args = << [x.args[1] EXCEPT !.body = << Tx(s, nextId) >>] >>])
                           ELSE Update(id, [x EXCEPT !.body = << Tx(s, nextId) >>]), 1)
+(* node.copy(): the node and everything below it again, with identities of its own (fresh ids in document order) *)
+MaxCopyText == 24
+RECURSIVE RenNode(_, _), RenSeq(_, _)
+RenNode(x, b) == IF x.k = "text" THEN [n |-> [x EXCEPT !.pos = b], nx |-> b + 1]
+                 ELSE LET a == RenSeq(x.args, b + 1)
+                          bd == RenSeq(x.body, a.nx) IN
+                      [n |-> [x EXCEPT !.pos = b, !.args = a.s, !.body = bd.s], nx |-> bd.nx]
+RenSeq(q, b) == IF q = <<>> THEN [s |-> <<>>, nx |-> b]
+                ELSE LET h == RenNode(Head(q), b)
+                         t == RenSeq(Tail(q), h.nx) IN
+                     [s |-> << h.n >> \o t.s, nx |-> t.nx]
+CopyAppendS(id, pid) == LET c == RenNode(GetSeq(doc, id), nextId) IN
+                        Step(Op("copy_append", id, pid, 0, <<>>, <<>>, NoMs), WithBody(pid, Append(BodyOf(pid), c.n)), c.nx - nextId)
+CopyOK(id, pid) == id \in NodeTargetIds /\ pid \in ParentIds /\ Len(Str(GetSeq(doc, id))) <= MaxCopyText
 (* argument-list operations: j = index parameter, s = extra parameter (group kind / slice end as a string) *)
 ArgsOK(k, id, j, s) ==
   LET x == GetSeq(doc, id)
@@ -204,8 +218,9 @@ ArgsOps == {"args_swap", "args_del", "args_append", "args_pop", "args_reverse", 
 ArgParams == {<<"{">>, <<"[">>, <<"{", "{">>, <<>>} \cup {<<ToString(b)>> : b \in 1..4}
 ArgsEdit == \E k \in ArgsOps : \E id \in NodeTargetIds : \E j \in 0..4 : \E s \in ArgParams : ArgsOK(k, id, j, s) /\ ArgsS(k, id, j, s)
 
+CopyAppend == "copy_append" \in OpKinds /\ \E id \in NodeTargetIds : \E pid \in ParentIds : CopyOK(id, pid) /\ CopyAppendS(id, pid)
 Edit == /\ estage = "edit" /\ Len(hist) < MaxEdits
-        /\ (Delete \/ ReplaceWith \/ Replace \/ Remove \/ Insert \/ AppendOp \/ Rename \/ SetString \/ ArgsEdit)
+        /\ (CopyAppend \/ Delete \/ ReplaceWith \/ Replace \/ Remove \/ Insert \/ AppendOp \/ Rename \/ SetString \/ ArgsEdit)
 ENext == Pick \/ Parse \/ Begin \/ Edit
 ESpec == EInit /\ [][ENext]_allv
 
